@@ -23,12 +23,23 @@ ASSUMPTIONS = ["comparison on canonical forms in which the wire name has been re
 NEUTRAL = "zqneutral"
 CONTROLS = ["alpha", "beta", "gamma", "delta", "count", "name", "title", "value", "amount", "status", "owner", "created", "updated", "size", "color",
             "weight", "height", "label", "note", "flavour"]
-MODEL_SHAPES = ["int", "date", "array-model", "union", "int-first"]
-EP_SHAPES = [(loc, body) for loc in ("path", "query", "header", "cookie") for body in (False, True)]
+MODEL_SHAPES = ["int", "date", "array-model", "union", "int-first", "addl-typed", "formats"]
+EP_SHAPES = [(loc, body) for loc in ("path", "query", "header", "cookie") for body in (False, True)] + [("query-uuid", False), ("query-formats", True)]
 _CANDS = {}
 
 
 def _model_doc(name, shape):
+    if shape == "addl-typed":
+        # typed additionalProperties that need decoding, exercised with undeclared keys present
+        return gen.base_doc({"Item": {"type": "object", "properties": {"Vx9q": {"type": "integer"}}},
+                             "M": {"type": "object", "properties": {name: {"type": "integer"}, "other": {"type": "string"}},
+                                   "additionalProperties": {"$ref": "#/components/schemas/Item"}}})
+    if shape == "formats":
+        # the candidate next to (before and after) siblings of every formatted kind: uuid, date, date-time, file-less binary is not JSON
+        return gen.base_doc({"M": {"type": "object", "properties": {
+            "before": {"type": "string", "format": "uuid"}, name: {"type": "string", "format": "uuid"},
+            "other": {"type": "string", "format": "date-time"}, "sibling": {"type": "string", "format": "date"},
+            "after": {"oneOf": [{"type": "string", "format": "uuid"}, {"type": "null"}]}}}})
     if shape == "int-first":
         # the candidate is decoded BEFORE a sibling array / union whose template locals are derived from the sibling's name
         return gen.base_doc({"M": {"type": "object", "properties": {
@@ -46,7 +57,14 @@ def _model_doc(name, shape):
     return gen.base_doc(comps)
 
 
+U1, U2 = "12345678-1234-5678-1234-567812345678", "00000000-0000-4000-8000-000000000001"
+
+
 def _model_instances(name, shape):
+    if shape == "addl-typed":
+        return [{}, {name: 5, "other": "o"}, {name: 5, "other": "o", "Ex9q": {"Vx9q": 1}, "Kx9q": {}}, {"Ex9q": {"Vx9q": 2}}, {name: 0, "Ex9q": {}}]
+    if shape == "formats":
+        return [{}, {name: U1}, {"before": U2, name: U1, "other": "2020-01-02T03:04:05+00:00", "sibling": "2020-01-02", "after": U2}, {name: U2, "after": None}, {"before": U1, "after": U1}]
     if shape == "int-first":
         return [{}, {name: 5, "sibling": ["2021-01-01", "2021-01-02"], "other": "2020-02-02"}, {name: 0, "sibling": [], "other": None, "Ex9q": 1}, {name: 3}]
     v = {"int": [5, 0], "date": ["2020-01-02"], "array-model": [[{"Vx9q": 1}, {}], []], "union": [3, {"Vx9q": 2}, None]}[shape]
@@ -58,6 +76,18 @@ def _model_instances(name, shape):
 
 
 def _ep_doc(name, loc, body):
+    if loc in ("query-uuid", "query-formats"):
+        # the candidate is itself a (nullable) uuid parameter; siblings of the other formatted kinds; a JSON-transformed array sibling
+        cand = {"oneOf": [{"type": "string", "format": "uuid"}, {"type": "null"}]} if loc == "query-uuid" else {"type": "string", "format": "date"}
+        op = {"operationId": "theOp", "parameters": [{"name": name, "in": "query", "required": False, "schema": cand},
+                                                      {"name": "fixedq", "in": "query", "required": True, "schema": {"type": "integer"}},
+                                                      {"name": "other", "in": "query", "schema": {"type": "string", "format": "uuid"}},
+                                                      {"name": "sibling", "in": "query", "schema": {"type": "array", "items": {"type": "string", "format": "date-time"}}}],
+              "responses": {"200": {"description": "d", "content": {"application/json": {"schema": {"$ref": "#/components/schemas/Out"}}}}}}
+        if body:
+            op["requestBody"] = {"required": True, "content": {"application/json": {"schema": {"$ref": "#/components/schemas/In"}}}}
+        comps = {"Out": {"type": "object", "properties": {"ok": {"type": "boolean"}}}, "In": {"type": "object", "properties": {"payload": {"type": "string"}}}}
+        return gen.base_doc(comps, paths={"/things": {"post": op}})
     path = "/things/{" + name + "}/tail" if loc == "path" else "/things"
     op = {"operationId": "theOp", "parameters": [{"name": name, "in": loc, "required": loc == "path", "schema": {"type": "string"}},
                                                   {"name": "fixedq", "in": "query", "required": True, "schema": {"type": "integer"}}],
@@ -136,7 +166,8 @@ def candidates():
     roles.update({k: v for k, v in extra.items() if len(k) <= 24})
     for c in CONTROLS:
         roles[c] = "control"
-    for fixed in ("other", "sibling", "fixedq", "payload", "ok", "Vx9q", "Ex9q", "Kx9q", "Other", "Sibling", "OTHER", "SIBLING", "other_", "sibling_", "_other", "_sibling_"):
+    for fixed in ("other", "sibling", "fixedq", "payload", "ok", "Vx9q", "Ex9q", "Kx9q", "Other", "Sibling", "OTHER", "SIBLING", "other_", "sibling_", "_other", "_sibling_",
+                  "before", "after", "Before", "After", "BEFORE", "AFTER", "before_", "after_", "_before", "_after"):
         roles.pop(fixed, None)          # names the shapes themselves use for the fixed pieces
     roles.pop(NEUTRAL, None)
     for n in list(roles):
@@ -219,13 +250,31 @@ def _behaviour_ep(name, loc, body):
             return ("broken", f"import: {type(exc).__name__}: {str(exc)[:120]}")
         import httpx
         cap = wire.Capture(lambda request: httpx.Response(200, json={"ok": True}))
-        py = ep[f"{loc}_params"][0]["py"] if ep[f"{loc}_params"] else None
+        real_loc = "query" if loc.startswith("query-") else loc
+        mine = [q for q in ep[f"{real_loc}_params"] if q["name"] == name] or ep[f"{real_loc}_params"][:1]
+        py = mine[0]["py"] if mine else None
         fixed = next(q["py"] for q in ep["query_params"] if q["name"] == "fixedq")
         if py is None:
             return ("diag", ["parameter not offered"])
-        for argval in (("Wv1",) if loc == "path" else ("Wv1", None)):
-            kwargs = {fixed: 7}
-            if argval is not None:
+        import datetime
+        import uuid as _uuid
+        argvals = ("Wv1",) if loc == "path" else ("Wv1", None)
+        extra = {}
+        if loc == "query-uuid":
+            argvals = (_uuid.UUID(U1), None, "<none>")
+        elif loc == "query-formats":
+            argvals = (datetime.date(2020, 1, 2), None)
+        if loc.startswith("query-"):
+            for q in ep["query_params"]:
+                if q["name"] == "other":
+                    extra[q["py"]] = _uuid.UUID(U2)
+                if q["name"] == "sibling":
+                    extra[q["py"]] = [datetime.datetime(2020, 1, 2, 3, 4, 5)]
+        for argval in argvals:
+            kwargs = {fixed: 7, **extra}
+            if argval == "<none>":
+                kwargs[py] = None
+            elif argval is not None:
                 kwargs[py] = argval
             if body:
                 kwargs["body"] = models.In.from_dict({"payload": "Wp"})
